@@ -1,6 +1,7 @@
 """SWEEP oracles for the differentiation properties C03, C04, C05, C06, C07 and for C14, C17."""
 from __future__ import annotations
 import math
+import json
 from contextlib import contextmanager
 from fractions import Fraction
 
@@ -55,7 +56,7 @@ def attribute_f3(st: Stats, recheck, violation_case, example):
     if still:
         st.violation(violation_case)
     else:
-        st.known_hit("F3", example)
+        st.known_hit("F3", example, key=(json.dumps(violation_case.get("term"), sort_keys=True), violation_case.get("variable")), case=violation_case)
 
 
 # ---------------------------------------------------------------- conditioning / range filters
